@@ -91,6 +91,13 @@ func verifAssume(c bool) {
 
 func verifAssert(c bool, msg string) {
 	if !c {
+		// a recorded schedule that was not followed to its end means the native run took another course than the
+		// symbolic one (map iteration order, goroutines that cannot be gated): the outcome is then not comparable
+		verifSch.mu.Lock()
+		if verifSch.inited && len(verifSch.vec) > 0 && verifSch.pos < len(verifSch.vec) && verifos.Getenv("VERIF_FREE") == "" && !verifRaceMode {
+			println("VERIF-SCHED-INCOMPLETE: the recorded schedule was followed for", verifSch.pos, "of", len(verifSch.vec), "steps")
+		}
+		verifSch.mu.Unlock()
 		println("VERIF-ASSERT-FAIL: " + msg)
 		verifos.Exit(1)
 	}
@@ -269,7 +276,9 @@ func verifSchInit() {
 	verifSch.prev = -1
 	verifLoad()
 	verifSch.vec = verifRT.file.Sched
-	if len(verifSch.vec) == 0 {
+	if len(verifSch.vec) == 0 || verifos.Getenv("VERIF_FREE") != "" {
+		// no schedule recorded, or a harness whose oracle measures real time (//verif:replay free): imposing the recorded
+		// order would stretch the real intervals it measures
 		verifSch.free = true
 	}
 	go func() { // watchdog: a diverged replay must not hang
